@@ -355,16 +355,23 @@ func (m *Machine) nativeStringFn(s *State, f *Frame, x *ssa.Call, name string, a
 		}
 		f.env[x] = Sc{c.Bool(r)}
 		return true
-	case "strings.TrimPrefix", "strings.TrimSuffix":
+	case "strings.TrimPrefix", "strings.TrimSuffix", "strings.TrimLeft", "strings.TrimRight", "strings.Trim":
 		a, ok1 := str(0)
 		b, ok2 := str(1)
 		if !ok1 || !ok2 {
 			return false
 		}
-		if name == "strings.TrimPrefix" {
+		switch name {
+		case "strings.TrimPrefix":
 			f.env[x] = m.mkStr(strings.TrimPrefix(a, b))
-		} else {
+		case "strings.TrimSuffix":
 			f.env[x] = m.mkStr(strings.TrimSuffix(a, b))
+		case "strings.TrimLeft":
+			f.env[x] = m.mkStr(strings.TrimLeft(a, b))
+		case "strings.TrimRight":
+			f.env[x] = m.mkStr(strings.TrimRight(a, b))
+		default:
+			f.env[x] = m.mkStr(strings.Trim(a, b))
 		}
 		return true
 	case "strings.Split":
